@@ -1,13 +1,66 @@
 /-
-  Avt.Spec.C15 — oracle of property C15 (decidable predicates evaluated on implementation states;
-  the same definitions the theorems in Avt/Props/C15.lean are stated with).
+  Avt.Spec.C15 — oracle of property C15 "changed-line reports are sound" (decidable predicates
+  evaluated on implementation states; the same definitions the theorems in Avt/Props/C15.lean are
+  stated with).
+
+  Vocabulary of the property: a *visible row* is an index `i < rows`; its *cells* are the characters
+  and pens of view row `i` (wrap marks are not cells); a row *changed* during a call when its cells
+  after the call differ from its cells before the call, or when the row did not exist before
+  (resize to more rows; a row whose width changed has a different cell list, hence changed).
+  Soundness: every changed row is in the returned `Changes.lines`.
+
+  Step level (used by the theorems): while a call runs, flags are only ever set (`dirtyMono`), and
+  every function flags each row whose cells it changes (`dirtySound`); `changes()` reports exactly
+  the flagged rows.  Flags left over from before the call (after `Vt::new`: all set; after per-char
+  `feed()`: accumulated) only add reported rows.
 -/
 import Avt.Spec.Base
 
 namespace Avt.Spec.C15
 open Avt Avt.Spec
 
-def checkStep (_ev : StepEv) : List Verdict := []
+/-- the cells of visible row `i` (`none`: there is no such row) -/
+def rowCells (t : Terminal) (i : Nat) : Option (List Cell) := (t.buffer.view[i]?).map (·.cells)
+
+/-- row `i` of `t'` is not cell-for-cell what row `i` of `t` was -/
+def rowChanged (t t' : Terminal) (i : Nat) : Bool := rowCells t' i != rowCells t i
+
+/-- the visible rows of `t'` whose cells differ from `t` -/
+def changedRows (t t' : Terminal) : List Nat := (List.range t'.rows).filter (rowChanged t t')
+
+/-- soundness of a report: every changed row is listed -/
+def reportSound (t t' : Terminal) (lines : List Nat) : Bool :=
+  (changedRows t t').all fun i => lines.contains i
+
+/-- is the flag of row `i` set? -/
+def flagged (t : Terminal) (i : Nat) : Bool := t.dirtyLines[i]? == some true
+
+/-- step-level soundness: every row changed between `t` and `t'` is flagged in `t'` -/
+def dirtySound (t t' : Terminal) : Bool := (changedRows t t').all (flagged t')
+
+/-- flags are never cleared while a call runs (as long as the number of rows is the same; a change
+    of the number of rows re-flags everything, which `dirtySound` covers) -/
+def dirtyMono (t t' : Terminal) : Bool :=
+  t.dirtyLines.length != t'.dirtyLines.length
+    || (List.range t.dirtyLines.length).all fun i => !flagged t i || flagged t' i
+
+/-- every row is flagged (after `hard_reset`, `reflow`, buffer switches) -/
+def allFlagged (t : Terminal) : Bool := (List.range t.rows).all (flagged t)
+
+def checkStep (ev : StepEv) : List Verdict :=
+  let t := ev.prev.terminal
+  let t' := ev.next.terminal
+  match ev.ch with
+  | some lines =>
+    -- feed_str (either way of disposing of `Changes`) and resize: before/after view vs report
+    let changed := changedRows t t'
+    [ check "C15.changed-row-not-reported" (!changed.isEmpty) (reportSound t t' lines) ]
+  | none =>
+    if ev.kind == .feedChars then
+      -- `Vt::feed` per character: nothing is reported or cleared, the flags themselves are visible
+      [ check "C15.flag-cleared-during-call" (t.dirtyLines.any id) (dirtyMono t t'),
+        check "C15.changed-row-not-flagged" (!(changedRows t t').isEmpty) (dirtySound t t') ]
+    else []
 
 def checkNew (_cols _rows : Nat) (_lim : Option Nat) (_st : Vt) : List Verdict := []
 
